@@ -87,6 +87,7 @@ type RunResult struct {
 	TraceHash string        `json:"trace_hash"` // hash of scheduling-relevant trace only
 	PoolReissued int        `json:"pool_reissued"`
 	FinalIDs   map[string]fileID `json:"-"`
+	StartIDs   map[string]fileID `json:"-"`
 	ProcYields []int        `json:"-"`
 	StepHits   []map[string]int `json:"-"`
 }
@@ -164,6 +165,7 @@ func Execute(t *testing.T, sc *Scenario, dec *Decider, obs ...Observer) (*RunRes
 		panic(err)
 	}
 
+	startIDs := statFiles(dir, sc.Files)
 	gm := query.GetGoroutineManager()
 	gm.Count = 0
 	if sc.Knobs.MinPerCore > 0 {
@@ -199,6 +201,7 @@ func Execute(t *testing.T, sc *Scenario, dec *Decider, obs ...Observer) (*RunRes
 	res.LimitHit = k.LimitHit
 	res.Final = SnapshotDir(dir)
 	res.FinalIDs = statFiles(dir, sc.Files)
+	res.StartIDs = startIDs
 	res.PoolReissued = k.pool.Reissued
 	for _, p := range k.procs {
 		if p.res == nil {
